@@ -6,6 +6,14 @@ import subprocess, sys, os, json, shutil
 pid, m = sys.argv[1], sys.argv[2]
 wave = os.environ.get("WAVE", "")          # WAVE=2 -> worktree /tmp/wt2-<ID>, id <ID>-w2<m>
 wt = f"/tmp/wt{wave}-{pid}"; src = f"{wt}/seeded_out/{m}"; dst = f"/verif/seeded/{pid}-{('w'+wave) if wave else ''}{m}"
+prop = pid
+if wave == "3":
+    # round 3 is organised by source area (A..F); the property comes from argv[3] or the first Cxx named in notes.md
+    import re
+    dst = f"/verif/seeded/W3{pid}-{m}"
+    txt = open(f"{src}/notes.md").read() if os.path.exists(f"{src}/notes.md") else ""
+    mm = re.search(r"C(0[1-9]|1[0-9])", txt)
+    prop = sys.argv[3] if len(sys.argv) > 3 and sys.argv[3].startswith("C") else (mm.group(0) if mm else "C01")
 env = dict(os.environ, CARGO_NET_OFFLINE="true")
 def sh(c):
     r = subprocess.run(c, cwd=wt, shell=True, capture_output=True, text=True, env=env); return r.returncode, r.stdout + r.stderr
@@ -29,7 +37,7 @@ if not (suite_ok and demo_fails_with and demo_passes_without):
 os.makedirs(dst, exist_ok=True)
 for f in ("patch.diff", "demo.rs", "notes.md"):
     if os.path.exists(f"{src}/{f}"): shutil.copy(f"{src}/{f}", f"{dst}/{f}")
-meta = {"id": os.path.basename(dst), "property": pid, "source": "independent sub-agent given only the property text and a scratch worktree",
+meta = {"id": os.path.basename(dst), "property": prop, "source": "independent sub-agent given only the property text and a scratch worktree",
         "needs_to_manifest": sys.argv[3] if len(sys.argv) > 3 else "see notes.md",
         "confirmed": {"repo_tests_pass_with_change": suite_ok, "demo_fails_with_change": demo_fails_with, "demo_passes_without_change": demo_passes_without,
                       "commands": ["git apply patch.diff; cargo test --offline", f"cargo test --offline {f32} --test demo (with change)", f"cargo test --offline {f32} --test demo (without change)"]},
